@@ -230,6 +230,7 @@ def run(tier, seed):
     scen.append({"hist": [["late_link", "", "", ""]], "adversarial": "late_link"})
     scen.append({"hist": [["full_mailbox", "", "", ""]], "adversarial": "full_mailbox"})
     scen.append({"hist": [["name_move", "", "", ""]], "adversarial": "name_move"})
+    scen.append({"hist": [["register_race", "", "", ""]], "adversarial": "register_race"})
     for i, s in enumerate(scen):
         s["id"] = i
     sp = os.path.join(lib.outdir(PID), "scenarios.ndjson")
@@ -245,6 +246,11 @@ def run(tier, seed):
         case = {"operations": s["hist"]}
         if "tool_error" in o:
             raise lib.ToolError("localproc runner: " + o["tool_error"])
+        if s.get("adversarial") == "register_race":
+            if o["bad_rounds"]:
+                v.violation("several tasks registering one free name for different live processes at the same moment: not exactly one of them was told it holds the name "
+                            "(or the name resolves to another task's process)", {**case, "rounds": o["rounds"], "tasks": o["tasks"], "rounds_gone_wrong": o["bad_rounds"], "example": o["example"]})
+            continue
         if s.get("adversarial") == "name_move":
             if o["notes"] or not (o["unregister_ok"] and o["register_to_q_ok"]):
                 v.add_drift("name-move schedule could not be forced: " + "; ".join(o["notes"]), {**case, "obs": o})
